@@ -275,7 +275,7 @@ def _evaluate_world(ctx, use_fp: bool, kinds, ret: str, abi_out: bool, n_locals:
 
 def r02_2_convention(ctx):
     ctx.rule("R02.2", "prologue and argument binding: parameter i is bound to the i-th pushed argument in both conventions (scratch: stores in reverse order; frame pointers: frame index i - argc), the ABI output lives in frame cell 0, proto declares (argc, callee-leaves-a-value)")
-    shapes = [[], ["value"], ["value", "value"], ["value", "ref"], ["ref", "value", "abi"], ["abi", "value", "value"], ["value", "abi", "ref", "value"]]
+    shapes = [[], ["value"], ["value", "value"], ["value", "ref"], ["ref", "value", "abi"], ["abi", "value", "value"], ["value", "abi", "ref", "value"], ["ref", "ref"], ["ref", "value", "ref"], ["abi", "ref", "ref", "ref"]]
     if ctx.tier == "thorough":
         shapes = [list(p) for k in range(0, 5) for p in itertools.product(["value", "ref", "abi"], repeat=k)]
     f = ctx.model.find_func("SubroutineEval.evaluate", "pyteal.ast.subroutine")
